@@ -25,12 +25,19 @@ TV      (a) every rendering is sent back as {text, abstract lines} and Present!L
 
 Mutants (checks/mutants/C06/*.diff; `cp -r /repo /tmp/zone-x && git -C /tmp/zone-x apply <diff> &&
 VERIF_REPO=/tmp/zone-x bin/check C06 quick` -> exit 1, seed 1):
+  generate-ignores-inherited-ttl  re-introduces the defect repaired in /repo 4d32f83 ($GENERATE sub-parser starts at 3600)
+                                                                                GEN seq/idx + TV   zone/generate:ttl:$TTL, :last, :default
   ttl-directive-not-sticky     a stated TTL overrides $TTL for later lines      GEN seq/idx + TV   zone/rr:ttl:$TTL, zone/include:ttl:$TTL
   origin-resets-owner          $ORIGIN also replaces the carried owner          GEN seq/idx + TV   zone/rr:owner
   class-default-forgotten      omitted class repeats the last class (CH)        GEN seq/idx + TV   zone/rr:class, zone/include:class
   include-leaks-origin         $INCLUDE f o leaves o as the includer's origin   GEN seq/idx + TV   zone/rr:owner, zone/rr:rdata, zone/include:owner
   generate-width-space-padded  ${0,3,d} padded with blanks instead of zeros     GEN gen matrix + seq (shape 27) + TV   zone/generate:owner:mod, zone/rejects:*
   ttl-units-week-as-day        1w read as 1d                                    GEN (noisy spellings only: the canonical one writes seconds) + TV   zone/rr:ttl:stated, :$TTL
+
+Seeded changes (seeded/C06-*): C06-1 GEN seq/idx (zone/extra-record, zone/generate:owner:nested); C06-2 (class-first TTL not
+inherited) GEN noisy/minimal spellings + TV (zone/rr:ttl:last, :stated) -- the replay case carries the exact text and include
+files of the failing spelling, so the confirmation re-executes that parse; C06-3 (nested relative $INCLUDE resolved from the wrong
+directory) GEN "tree" through MapFS (zone/include:rdata: a decoy file's record) and on the os file system (zone/rejects:include).
 
 Findings on the unchanged tree: known-findings.d/C06.txt.
 """
